@@ -242,3 +242,12 @@ Theorem C09_source_effective_timeout : forall req proxy_ms (has_dl : bool) until
   Next ((out ++ (if has_dl then [] else [t]))%list, t, with_itimeout req (eff_itimeout proxy_ms (per_call ct) dl)).
 Proof. exact TarsInvokeEquiv.tr_TarsInvoke_timeout_equiv. Qed.
 Print Assumptions C09_source_effective_timeout.
+(* ---- the CURRENT source of AdapterProxy.Recv: the hand-over of a late reply is bounded by conf.ReadTimeout ----
+   (Xlate/AdapterRecvEquiv.v) whenever the translated statements arm a timer, its duration is exactly conf.ReadTimeout and the
+   table has an entry under the packet's id *)
+From TarsV Require Import Conc.Pending Xlate.AdapterRecvEquiv.
+Theorem C09_source_recv_timer : forall p t ptype rt sel d, (ptype =? k_basef_TARSONEWAY)%Z = p_oneway p ->
+  forall o, out_of (tr_adapter_Recv rt (match lookup (p_id p) t with Some _ => true | None => false end) ptype (p_id p) sel []) = Some o ->
+  In (3, d)%Z o -> d = rt /\ exists ch, lookup (p_id p) t = Some ch /\ p_id p <> 0%Z.
+Proof. exact AdapterRecvEquiv.adapter_Recv_timer. Qed.
+Print Assumptions C09_source_recv_timer.
